@@ -176,18 +176,22 @@ structure Assembled where
   invokeIndex : Nat
 deriving Repr, Inhabited
 
+/-- bind.go:59-94: the synthetic providers for `Unused` -- a literal in front when somebody takes it as an input,
+    a receiver in front of the final function when somebody receives it -/
+def addUnused (funcs : List CP) (invokeIndex : Nat) : Assembled :=
+  let consumesUnused := funcs.any fun f => f.inp.contains tUnused || f.byp.contains tUnused
+  let receivesUnused := funcs.any fun f => f.recv.contains tUnused
+  let funcs1 := if consumesUnused then unusedInCP :: funcs else funcs
+  let invokeIndex1 := if consumesUnused then invokeIndex + 1 else invokeIndex
+  let funcs2 := if receivesUnused then funcs1.dropLast ++ [unusedRetCP] ++ (funcs1.drop (funcs1.length - 1)) else funcs1
+  { funcs := funcs2, invokeIndex := invokeIndex1 }
+
 /-- bind.go:13-95 -/
 def assemble (provs : List PDesc) (inv : Sig) (ini : Option Sig) : Option Assembled :=
   match characterizeAll provs inv.ins with
   | none => none
   | some (bi, ai) =>
     let head := debugCP :: (match ini with | some s => [initCP s] | none => [])
-    let funcs := head ++ bi ++ [invokeCP inv] ++ ai
-    let invokeIndex := head.length + bi.length
-    let consumesUnused := funcs.any fun f => f.inp.contains tUnused || f.byp.contains tUnused
-    let receivesUnused := funcs.any fun f => f.recv.contains tUnused
-    let (funcs, invokeIndex) := if consumesUnused then (unusedInCP :: funcs, invokeIndex + 1) else (funcs, invokeIndex)
-    let funcs := if receivesUnused then funcs.dropLast ++ [unusedRetCP] ++ (funcs.drop (funcs.length - 1)) else funcs
-    some { funcs := funcs, invokeIndex := invokeIndex }
+    some (addUnused (head ++ bi ++ [invokeCP inv] ++ ai) (head.length + bi.length))
 
 end Nject
